@@ -105,7 +105,7 @@ func (v *V) cellComp(t types.Type) (string, string) {
 
 func (v *V) cellRead(st *State, ref string, t types.Type) Val {
 	comp, sort := v.cellComp(t)
-	return Val{T: t, S: fmt.Sprintf("(select %s %s)", st.heapGet(v.d, comp, sort), ref)}
+	return Val{T: t, S: st.heapRead(v.d, comp, sort, ref)}
 }
 
 func (v *V) cellWrite(st *State, ref string, val Val) {
@@ -144,8 +144,8 @@ func (v *V) readField(e *Env, base Val, f *types.Var, pos token.Pos) Val {
 		st := u.Elem()
 		v.nilObl(e, base.S, pos, "."+f.Name())
 		comp, sort := v.fieldComp(st, f)
-		r := Val{T: f.Type(), S: fmt.Sprintf("(select %s %s)", e.st.heapGet(v.d, comp, sort), base.S)}
-		if e.inQuant == 0 && !e.spec {
+		r := Val{T: f.Type(), S: e.st.heapRead(v.d, comp, sort, base.S)}
+		if e.inQuant == 0 {
 			r = v.nameVal(e, r, f.Name())
 			for _, a := range v.typeInv(e.st, r) {
 				e.st.assume(a)
@@ -200,7 +200,7 @@ func (v *V) deref(e *Env, p Val, pos token.Pos) Val {
 		return Val{T: pt.Elem(), S: fmt.Sprintf("(mk_%s %s)", name, strings.Join(fs, " "))}
 	}
 	r := v.cellRead(e.st, p.S, pt.Elem())
-	if e.inQuant == 0 && !e.spec {
+	if e.inQuant == 0 {
 		for _, a := range v.typeInv(e.st, r) {
 			e.st.assume(a)
 		}
@@ -342,7 +342,7 @@ func (v *V) sliceElem(e *Env, s Val, idx string) Val {
 	elem := s.T.Underlying().(*types.Slice).Elem()
 	comp, sort := v.memComp(elem)
 	base, off, _, _ := v.sliceParts(s.S)
-	return Val{T: elem, S: fmt.Sprintf("(select (select %s %s) %s)", e.st.heapGet(v.d, comp, sort), base, v.iadd(off, idx))}
+	return Val{T: elem, S: fmt.Sprintf("(select %s %s)", e.st.heapRead(v.d, comp, sort, base), v.iadd(off, idx))}
 }
 
 func (v *V) sliceStore(e *Env, s Val, idx string, nv Val) {
@@ -365,7 +365,7 @@ func (e *Env) evalIndex(x *ast.IndexExpr) Val {
 			v.oblige(e, "bounds", v.inRange(e, i, "(sl_len "+base.S+")", false), x.Pos(), "index out of range")
 		}
 		r := v.sliceElem(e, base, v.toIdx(e, i))
-		if e.inQuant == 0 && !e.spec {
+		if e.inQuant == 0 {
 			r = v.nameVal(e, r, "el")
 			for _, a := range v.typeInv(e.st, r) {
 				e.st.assume(a)
@@ -402,7 +402,7 @@ func (e *Env) evalIndex(x *ast.IndexExpr) Val {
 			}
 			v.d.declareFun("str_at", []string{"Str", "Int"}, "Int")
 			r := Val{T: tByte, S: fmt.Sprintf("(str_at %s %s)", base.S, v.toIdx(e, i))}
-			if e.inQuant == 0 && !e.spec {
+			if e.inQuant == 0 {
 				e.st.assume(fmt.Sprintf("(and (<= 0 %s) (<= %s 255))", r.S, r.S))
 			}
 			return r
@@ -671,7 +671,7 @@ func (v *V) mapRead(e *Env, m Val, k Val) (Val, string) {
 	present := fmt.Sprintf("(select (select %s %s) %s)", e.st.heapGet(v.d, dc, ds), m.S, k.S)
 	raw := fmt.Sprintf("(select (select %s %s) %s)", e.st.heapGet(v.d, vc, vs), m.S, k.S)
 	val := Val{T: mt.Elem(), S: ite(present, raw, e.zero(mt.Elem()).S)}
-	if e.inQuant == 0 && !e.spec {
+	if e.inQuant == 0 {
 		val = v.nameVal(e, val, "mv")
 		for _, a := range v.typeInv(e.st, val) {
 			e.st.assume(a)
@@ -753,7 +753,7 @@ func (v *V) useStrOrder() {
 func (v *V) strConcat(e *Env, a, b Val) Val {
 	v.d.declareFun("str_cat", []string{"Str", "Str"}, "Str")
 	r := Val{T: a.T, S: fmt.Sprintf("(str_cat %s %s)", a.S, b.S)}
-	if e.inQuant == 0 && !e.spec {
+	if e.inQuant == 0 {
 		e.st.assume(eq(fmt.Sprintf("(str_len %s)", r.S), fmt.Sprintf("(+ (str_len %s) (str_len %s))", a.S, b.S)))
 	}
 	return r
@@ -775,7 +775,7 @@ func (v *V) strSlice(e *Env, s Val, x *ast.SliceExpr) Val {
 	}
 	v.d.declareFun("str_sub", []string{"Str", "Int", "Int"}, "Str")
 	r := Val{T: s.T, S: fmt.Sprintf("(str_sub %s %s %s)", s.S, lo, hi)}
-	if e.inQuant == 0 && !e.spec {
+	if e.inQuant == 0 {
 		e.st.assume(eq(fmt.Sprintf("(str_len %s)", r.S), fmt.Sprintf("(- %s %s)", hi, lo)))
 	}
 	return r
